@@ -284,15 +284,18 @@ A_NAMES = ['name', 'age', 'home_town', 'x y', 'Dist (km)', 'q"uote', "it's", 'a1
 B_NAMES = ['id', 'name', 'b col', 'B3']
 
 
-def header_items(rng, join, ncols_a, ncols_b):
-    idents_a = [n for n in A_NAMES[:ncols_a] if re.match(r'^[_a-zA-Z][_a-zA-Z0-9]*$', n)]
-    idents_b = [n for n in B_NAMES[:ncols_b] if re.match(r'^[_a-zA-Z][_a-zA-Z0-9]*$', n)]
+ODD_NAMES = ['', '', '0', 'col1', 'col2', ' lead', 'trail ', 'ü', 'NULL', 'null', 'undefined', 'None', 'false', '0.0']
+
+
+def header_items(rng, join, ncols_a, ncols_b, A_NAMES=A_NAMES, B_NAMES=B_NAMES):
+    idents_a = [n for n in A_NAMES[:ncols_a] if re.match(r'^[_a-zA-Z][_a-zA-Z0-9]*$', n) and n not in ODD_NAMES]
+    idents_b = [n for n in B_NAMES[:ncols_b] if re.match(r'^[_a-zA-Z][_a-zA-Z0-9]*$', n) and n not in ODD_NAMES]
     pool = []
     pool += ['a%d' % rng.randrange(1, ncols_a + 3), 'a[%d]' % rng.randrange(1, ncols_a + 3)]
     if idents_a:
         pool += ['a.%s' % rng.choice(idents_a)]
     nm = rng.choice(A_NAMES[:ncols_a])
-    if '"' not in nm and "'" not in nm:
+    if '"' not in nm and "'" not in nm and nm != '':
         pool += ['a["%s"]' % nm, "a['%s']" % nm]
     pool += ['*', 'a.*', 'NR', 'NF', 'a1 + a2', 'f(a1, a2)', 'f(a1, [a2, 1])', 'f("x, y", a1)', '[a1, a2]', 'f(a1)[0]', "'lit'", '"li,t"', '1',
              'a1 * (2 + 3)', 'f(g(a1, a2), "a)b")', 'f({"k": a1})', "f('a(b', a2)", 'f(a1,a2,[1,[2,3]])', 'a1 == a2', 'f(a1 )', ' a2']
@@ -301,7 +304,8 @@ def header_items(rng, join, ncols_a, ncols_b):
         if idents_b:
             pool += ['b.%s' % rng.choice(idents_b)]
         nm = rng.choice(B_NAMES[:ncols_b])
-        pool += ['b["%s"]' % nm]
+        if nm != '':
+            pool += ['b["%s"]' % nm]
     return pool
 
 
@@ -310,7 +314,16 @@ def gen_header_case(rng):
     has_header = rng.random() < 0.7
     ncols_a = rng.randrange(2, len(A_NAMES) + 1)
     ncols_b = rng.randrange(1, len(B_NAMES) + 1)
-    pool = header_items(rng, join, ncols_a, ncols_b)
+    a_all, b_all = list(A_NAMES), list(B_NAMES)
+    if rng.random() < 0.35:
+        # unusual but legal header names (empty, falsy-looking, looking like default names) at random positions, kept distinct
+        for names in (a_all, b_all):
+            for j in range(len(names)):
+                if rng.random() < 0.3:
+                    nm = rng.choice(ODD_NAMES)
+                    if nm not in names:
+                        names[j] = nm
+    pool = header_items(rng, join, ncols_a, ncols_b, a_all, b_all)
     items = []
     for _ in range(rng.randrange(1, 5)):
         it = rng.choice(pool)
@@ -327,7 +340,7 @@ def gen_header_case(rng):
         q += ' where a1 == a2'
     if rng.random() < 0.15:
         q += ' order by a1'
-    return {'query': q, 'join': join, 'a_names': A_NAMES[:ncols_a] if has_header else None, 'b_names': (B_NAMES[:ncols_b] if has_header else None) if join else None}
+    return {'query': q, 'join': join, 'a_names': a_all[:ncols_a] if has_header else None, 'b_names': (b_all[:ncols_b] if has_header else None) if join else None}
 
 
 def py_header(ns, c):
